@@ -3,11 +3,11 @@
 EXTENDS ShmAbs, VTrace
 VARIABLE op        \* op[h]: call in flight: [st, name, a, b]
 tv == <<mvars, op, l>>
-NoOp == [st |-> "idle", name |-> "", a |-> 0, b |-> 0]
+NoOp == [st |-> "idle", name |-> "", a |-> 0, b |-> 0, inj |-> 0]
 TInit == MInit /\ op = [h \in Hids |-> NoOp] /\ CursorInit
 ProcHids(p) == {h \in Hids : h \div 10 = p}
 TrCall == /\ IsEvent("call") /\ Consume /\ op[Ev.h].st = "idle"
-          /\ op' = [op EXCEPT ![Ev.h] = [st |-> "called", name |-> Ev.op, a |-> Ev.a, b |-> Ev.b]]
+          /\ op' = [op EXCEPT ![Ev.h] = [st |-> "called", name |-> Ev.op, a |-> Ev.a, b |-> Ev.b, inj |-> IF HasField(Ev, "inj") THEN Ev.inj ELSE 0]]
           /\ IF Ev.op = "shmlock" THEN MLockCall(Ev.h) ELSE UNCHANGED mvars
 LinStep(h) ==
   /\ op[h].st = "called"
@@ -26,7 +26,14 @@ LinStep(h) ==
 Unsatisfiable(size) == size = 0 \/ size > 1000000000
 LinNewFail(h) == /\ op[h].st = "called" /\ op[h].name = "shmnew" /\ gen[op[h].a] = 0 /\ Unsatisfiable(op[h].b)
                  /\ op' = [op EXCEPT ![h].st = "failed"] /\ UNCHANGED mvars
-DoLin == (\E h \in Hids : LinStep(h) \/ LinNewFail(h)) /\ UNCHANGED l
+(* the environment refused a resource inside the call (a system call was made to fail by the harness): the call may fail - and then it has
+   changed nothing, whatever existed before is still there *)
+LinInjFail(h) == /\ op[h].st = "called" /\ op[h].name = "shmnew" /\ op[h].inj = 1
+                 /\ op' = [op EXCEPT ![h].st = "failed"] /\ UNCHANGED mvars
+(* a call through a handle that does not exist (its open failed) fails and changes nothing *)
+LinNoHandle(h) == /\ op[h].st = "called" /\ op[h].name \in {"shmw", "shmr", "shmsize", "shmunlock", "shmown", "shmfree"} /\ hd[h].g = 0
+                  /\ op' = [op EXCEPT ![h].st = "failed"] /\ UNCHANGED mvars
+DoLin == (\E h \in Hids : LinStep(h) \/ LinNewFail(h) \/ LinInjFail(h) \/ LinNoHandle(h)) /\ UNCHANGED l
 TrRet == /\ IsEvent("ret") /\ Consume
          /\ LET h == Ev.h IN
             /\ op[h].name = Ev.op
